@@ -6,7 +6,90 @@ use crate::bfs::{self, Mode, World};
 use crate::report::*;
 use serde_json::{json, Value};
 
+/// C08d: histories of ONE predictor object (not only of sentences): every sequence of up to `depth`
+/// steps over {store_tag_scores(on), store_tag_scores(off), predict+fill_tags text i on a fresh
+/// sentence}. (A sentence linked to a predictor borrows it, so the flag can only change between
+/// sentences; `Predictor` is not `Clone`.) After every predicting step the sentence's full observation
+/// must equal that of a predictor built from scratch with the store flag in force.
+#[derive(Clone, Copy, Debug, serde::Serialize, serde::Deserialize, PartialEq, Eq)]
+pub enum PStep {
+    Store(bool),
+    Fresh(usize),
+}
+
+const PTEXTS: [&str; 5] = ["ab a", "a", "あa ba", "aab", "a ba"];
+
+pub fn check_predictor_history(h: &[PStep]) -> Option<(String, String)> {
+    use vaporetto::{Predictor, Sentence};
+    let spec = bfs::model_tags2();
+    let mk = |store: bool| {
+        let mut p = Predictor::new(spec.to_model().unwrap_or_else(|e| machinery_error(&e)), true).unwrap_or_else(|e| machinery_error(&e.to_string()));
+        p.store_tag_scores(store);
+        p
+    };
+    let r = guard(|| {
+        let mut store = false;
+        let mut p = mk(false);
+        for (k, st) in h.iter().enumerate() {
+            match *st {
+                PStep::Store(b) => {
+                    p.store_tag_scores(b);
+                    store = b;
+                }
+                PStep::Fresh(i) => {
+                    let want = {
+                        let q = mk(store);
+                        let mut s = Sentence::from_raw(PTEXTS[i]).unwrap();
+                        q.predict(&mut s);
+                        s.fill_tags();
+                        crate::obs::observe(&s, true)
+                    };
+                    let mut s = Sentence::from_raw(PTEXTS[i]).unwrap();
+                    p.predict(&mut s);
+                    s.fill_tags();
+                    let got = crate::obs::observe(&s, true);
+                    if got != want {
+                        return Some((k, format!("step {k} ({st:?}, store flag {store}): observed {got:?}, a predictor built from scratch with that flag gives {want:?}")));
+                    }
+                }
+            }
+        }
+        None
+    });
+    match r {
+        Err(p) => Some(("predictor-history-panic".into(), p)),
+        Ok(Some((k, what))) => Some((format!("predictor-history step={k}"), what)),
+        Ok(None) => None,
+    }
+}
+
+pub fn predictor_histories(depth: usize) -> Vec<Vec<PStep>> {
+    let mut alphabet = vec![PStep::Store(true), PStep::Store(false)];
+    for i in 0..PTEXTS.len() {
+        alphabet.push(PStep::Fresh(i));
+    }
+    let mut out: Vec<Vec<PStep>> = vec![vec![]];
+    let mut all = vec![];
+    for _ in 0..depth {
+        let mut next = vec![];
+        for h in &out {
+            for a in &alphabet {
+                let mut x = h.clone();
+                x.push(*a);
+                next.push(x);
+            }
+        }
+        all.extend(next.iter().filter(|h| matches!(h.last(), Some(PStep::Fresh(_)))).cloned());
+        out = next;
+    }
+    all
+}
+
 pub fn replay(case: &Value) -> Option<(String, String)> {
+    if case["mode"] == "predictor-history" {
+        let h: Vec<PStep> = serde_json::from_value(case["history"].clone()).ok()?;
+        return check_predictor_history(&h).map(|(k, w)| (format!("{k} history={h:?}"), w));
+    }
     if case["mode"] == "C08" {
         return bfs::replay_case(Mode::C08, case);
     }
@@ -39,6 +122,19 @@ pub fn run(tier: Tier) -> ! {
     let sr = crate::sched::explore(&w, tier, &chk);
     chk.set("schedules_explored", json!(sr.schedules));
     chk.set("schedule_assignments", json!(sr.assignments));
+    // C08d: histories of one predictor object (flag toggles between fresh sentences)
+    {
+        use rayon::prelude::*;
+        let hs = predictor_histories(tier.pick(4, 5));
+        chk.set("predictor_histories", json!(hs.len()));
+        hs.par_iter().for_each(|h| {
+            chk.eval(1);
+            chk.nontrivial(1);
+            if let Some((k, what)) = check_predictor_history(h) {
+                chk.violation(format!("{k} history={h:?}"), what, json!({"mode": "predictor-history", "history": h}));
+            }
+        });
+    }
     // C08c: loom exploration INSIDE calls, on a copy of the library whose atomics / Mutex / RwLock /
     // Condvar paths were rewritten to loom's (tools/loomprep.sh). Exhaustive up to loom's
     // pre-emption bound for the primitives it intercepts; trivial when the library has none.
